@@ -95,6 +95,23 @@ func (s *Scn) Details(root string) types.ConfigDetails {
 	return cd
 }
 
+// LoadDetails loads with a ConfigDetails value supplied by the caller (possibly shared with other loads).
+// imperativeName: set the project name through the option, as LoadAt does; otherwise the loader derives it.
+func (s *Scn) LoadDetails(cd types.ConfigDetails, imperativeName bool) (p *types.Project, err error) {
+	opts := append([]func(*loader.Options){}, s.Opts...)
+	if imperativeName {
+		opts = append([]func(*loader.Options){func(o *loader.Options) { o.SetProjectName("proj", true) }}, opts...)
+	}
+	perr := core.Try(func() error {
+		p, err = loader.LoadWithContext(context.Background(), cd, opts...)
+		return nil
+	})
+	if perr != nil {
+		return nil, perr
+	}
+	return p, err
+}
+
 // LoadAt loads the scenario materialised at root. Panics become *core.PanicError.
 func (s *Scn) LoadAt(root string) (p *types.Project, err error) {
 	cd := s.Details(root)
